@@ -96,9 +96,9 @@ func runVerify(repo, prop, tier string, funcs []string, speclib string) (*Verify
 	rep.LoadSecs = time.Since(t0).Seconds()
 	rep.Axioms = e.axiomCount
 	rep.Errors = append(rep.Errors, e.axiomErrors...)
-	cfg := &RunCfg{Tier: tier, PerCheckMs: 20000, Workers: runtime.NumCPU()}
+	cfg := &RunCfg{Tier: tier, PerCheckMs: 10000, Workers: runtime.NumCPU()}
 	if tier == "thorough" {
-		cfg.PerCheckMs = 120000
+		cfg.PerCheckMs = 60000
 		cfg.Second = true
 	}
 	var keys []string
